@@ -158,13 +158,13 @@ def diff_coverage(repo: Repo, rep, rule: str, gen: Function, diff_body: List[ast
                           "out-of-date or edited file there is reported as 'no differences'", gen.loc(c))
 
 
-_LCACHE: Dict[str, object] = {}
-
-
 def _escapes_upward(fn: Function, path_expr: ast.AST) -> Optional[str]:
     from sa.match import Locals
 
-    L = _LCACHE.get(fn.fq) or _LCACHE.setdefault(fn.fq, Locals(fn.node))
+    L = getattr(fn, "_locals_cache", None)
+    if L is None:
+        L = Locals(fn.node)
+        fn._locals_cache = L  # type: ignore[attr-defined]  (per Function object: a re-parsed tree gets fresh Function objects)
     e = L.inline(path_expr, stop=tuple(L.params))
 
     def joined(x: ast.AST) -> bool:
